@@ -32,6 +32,10 @@ func GenericReplay(kind string, c map[string]interface{}) error {
 	switch {
 	case c["schedule"] != nil && c["name"] != nil:
 		return replaySchedule(c)
+	case c["history"] != nil && c["program"] != nil:
+		return replayC7History(c)
+	case c["history"] != nil && (kind == "history-result" || kind == "config-modified"):
+		return replayC8History(c)
 	case c["binding"] != nil && c["source"] != nil:
 		return replayProgram(kind, c)
 	case c["source"] != nil && c["infix"] != nil:
@@ -294,3 +298,105 @@ func replaySchedule(c map[string]interface{}) error {
 }
 
 var _ = term.TB
+
+// replayC7History re-runs one sequential call history on one shared compiled
+// program (C07) and compares every call with the same call in isolation.
+func replayC7History(c map[string]interface{}) error {
+	src := c["program"].(string)
+	var names []string
+	for _, n := range c["history"].([]interface{}) {
+		names = append(names, n.(string))
+	}
+	for _, p := range C07Corpus() {
+		if p.Src != src {
+			continue
+		}
+		idx := make([]int, 0, len(names))
+		for _, n := range names {
+			for ci, cc := range p.Calls {
+				if cc.Name == n {
+					idx = append(idx, ci)
+					break
+				}
+			}
+		}
+		if len(idx) != len(names) {
+			continue // same source under another option set / call menu
+		}
+		e, err := C7Compile(p)
+		if err != nil {
+			return err
+		}
+		text := c7text(e)
+		bufs := map[int]interface{}{}
+		bad := false
+		for step, ci := range idx {
+			iso, _ := C7Compile(p)
+			want := C7DoIso(iso, p, p.Calls[ci])
+			got := C7DoHist(e, p, p.Calls[ci], bufs)
+			c7drain(e)
+			fmt.Printf("[%s] step %d %s:\n   in this history: %s\n   in isolation:    %s\n", p.Name, step+1, p.Calls[ci].Name, trunc(got, 400), trunc(want, 400))
+			if got != want {
+				bad = true
+			}
+			if t := c7text(e); t != text {
+				fmt.Printf("   the compiled program changed (Dump/DumpTable differ)\n")
+				bad, text = true, t
+			}
+		}
+		if bad {
+			return fmt.Errorf("%s: a call of this history differs from the same call in isolation, or the program was modified", p.Name)
+		}
+	}
+	return nil
+}
+
+// replayC8History re-runs one history of Compile calls on fresh caller
+// configs (C08) and compares each result with the same call made first.
+func replayC8History(c map[string]interface{}) error {
+	type step struct {
+		ci  int
+		src string
+	}
+	var steps []step
+	for _, h := range c["history"].([]interface{}) {
+		s := h.(string) // Compile(configX, "source")
+		if !strings.HasPrefix(s, "Compile(config") || len(s) < 18 {
+			return fmt.Errorf("cannot read history step %q", s)
+		}
+		ci := int(s[len("Compile(config")] - 'A')
+		q := s[len("Compile(configX, ") : len(s)-1]
+		src, err := strconv.Unquote(q)
+		if err != nil {
+			return fmt.Errorf("cannot read history step %q: %v", s, err)
+		}
+		steps = append(steps, step{ci, src})
+	}
+	cfgs := c8Configs(&c8env{})
+	snaps := make([]string, len(cfgs))
+	for i, cfg := range cfgs {
+		snaps[i] = c8Snapshot(cfg)
+	}
+	bad := false
+	for k, st := range steps {
+		fresh := c8Configs(&c8env{})
+		fe, ferr := c8Compile(fresh[st.ci], st.src)
+		want := c8Result(fe, ferr)
+		e, err := c8Compile(cfgs[st.ci], st.src)
+		got := c8Result(e, err)
+		fmt.Printf("step %d Compile(config%c, %q):\n   in this history: %s\n   on fresh configs: %s\n", k+1, 'A'+st.ci, st.src, trunc(got, 300), trunc(want, 300))
+		if got != want {
+			bad = true
+		}
+		for i, cfg := range cfgs {
+			if now := c8Snapshot(cfg); now != snaps[i] {
+				fmt.Printf("   caller config %c was modified\n", 'A'+i)
+				bad, snaps[i] = true, now
+			}
+		}
+	}
+	if bad {
+		return fmt.Errorf("a compilation of this history differs from the same compilation on fresh configs (in this process), or a caller config was modified")
+	}
+	return nil
+}
